@@ -13,39 +13,39 @@ func registerSlices() {
 	reg("DeduplicateSliceInPlace", "s", 1, func(c *cx) []Val {
 		p := c.S(0)
 		collection.DeduplicateSliceInPlace(&p)
-		return r1(VL(p))
+		return r1(VL(c.out(p)))
 	}, func(a, res, aft []Val) []hit { return dedupLaw(a[0].slice(), res[0].L, eq0) }).ip()
 	reg("DeduplicateSlice", "s", 1, func(c *cx) []Val {
-		return r1(VL(collection.DeduplicateSlice(c.S(0))))
-	}, func(a, res, aft []Val) []hit { return dedupLaw(a[0].slice(), res[0].L, eq0) })
+		return r1(VL(c.out(collection.DeduplicateSlice(c.S(0)))))
+	}, func(a, res, aft []Val) []hit { return dedupLaw(a[0].slice(), res[0].L, eq0) }).returnsArg() // len < 2: "return s"
 	reg("DeduplicateSliceInPlaceWithCompare", "s,k", 1, func(c *cx) []Val {
 		p := c.S(0)
 		collection.DeduplicateSliceInPlaceWithCompare(&p, cmpk(c.Z(1)))
-		return r1(VL(p))
+		return r1(VL(c.out(p)))
 	}, func(a, res, aft []Val) []hit { return dedupLaw(a[0].slice(), res[0].L, cmpk(a[1].Z)) }).ip()
 	reg("DeduplicateSliceWithCompare", "s,k", 1, func(c *cx) []Val {
-		return r1(VL(collection.DeduplicateSliceWithCompare(c.S(0), cmpk(c.Z(1)))))
-	}, func(a, res, aft []Val) []hit { return dedupLaw(a[0].slice(), res[0].L, cmpk(a[1].Z)) })
+		return r1(VL(c.out(collection.DeduplicateSliceWithCompare(c.S(0), cmpk(c.Z(1))))))
+	}, func(a, res, aft []Val) []hit { return dedupLaw(a[0].slice(), res[0].L, cmpk(a[1].Z)) }).returnsArg() // len < 2: "return s"
 
 	// ------------------------------------------------------------ sort.go
 	reg("Asc", "s,g01", 1, func(c *cx) []Val {
 		p, key := c.S(0), keyk(c.Z(1))
 		collection.Asc(&p, func(i int) int64 { return key(p[i]) })
-		return r1(VL(p))
+		return r1(VL(c.out(p)))
 	}, func(a, res, aft []Val) []hit { return sortLaw(a[0].slice(), res[0].L, keyk(a[1].Z), false) }).ip()
 	reg("Desc", "s,g01", 1, func(c *cx) []Val {
 		p, key := c.S(0), keyk(c.Z(1))
 		collection.Desc(&p, func(i int) int64 { return key(p[i]) })
-		return r1(VL(p))
+		return r1(VL(c.out(p)))
 	}, func(a, res, aft []Val) []hit { return sortLaw(a[0].slice(), res[0].L, keyk(a[1].Z), true) }).ip()
 	// the getter of the copying variants is addressed by indices of the argument (as in the package's examples)
 	reg("AscByClone", "s,g", 1, func(c *cx) []Val {
 		s, key := c.S(0), keyk(c.Z(1))
-		return r1(VL(collection.AscByClone(s, func(i int) int64 { return key(s[i]) })))
+		return r1(VL(c.out(collection.AscByClone(s, func(i int) int64 { return key(s[i]) }))))
 	}, func(a, res, aft []Val) []hit { return sortLaw(a[0].slice(), res[0].L, keyk(a[1].Z), false) })
 	reg("DescByClone", "s,g", 1, func(c *cx) []Val {
 		s, key := c.S(0), keyk(c.Z(1))
-		return r1(VL(collection.DescByClone(s, func(i int) int64 { return key(s[i]) })))
+		return r1(VL(c.out(collection.DescByClone(s, func(i int) int64 { return key(s[i]) }))))
 	}, func(a, res, aft []Val) []hit { return sortLaw(a[0].slice(), res[0].L, keyk(a[1].Z), true) })
 	reg("AscBy", "z,z", 1, func(c *cx) []Val { return r1(VB(collection.AscBy(c.Z(0), c.Z(1)))) },
 		func(a, res, aft []Val) []hit { return expectB(res[0], a[0].Z < a[1].Z, "wrong-result") })
@@ -58,14 +58,15 @@ func registerSlices() {
 		return nil
 	}
 	reg("Shuffle", "s", 1, func(c *cx) []Val {
-		p := c.a[0].slice()
+		p := c.matS(0) // not re-read as an argument: the permutation is handed to the law as the oracle argument
 		collection.Shuffle(&p)
+		c.out(p)
 		c.a = append(c.a[:1:1], VL(p))
 		c.live = append(c.live[:1:1], nil)
 		return r1(VB(true))
-	}, permLaw).orc()
+	}, permLaw).orc().ip()
 	reg("ShuffleByClone", "s", 1, func(c *cx) []Val {
-		r := collection.ShuffleByClone(c.S(0))
+		r := c.out(collection.ShuffleByClone(c.S(0)))
 		c.a = append(c.a[:1:1], VL(r))
 		c.live = append(c.live[:1:1], nil)
 		return r1(VB(true))
@@ -75,19 +76,19 @@ func registerSlices() {
 	reg("ClearSlice", "s", 1, func(c *cx) []Val {
 		p := c.S(0)
 		collection.ClearSlice(&p)
-		return r1(VL(p))
+		return r1(VL(c.out(p)))
 	}, func(a, res, aft []Val) []hit { return expectL(res[0], []int64{}, "not-empty") }).ip()
 	reg("DropSliceByIndices", "s,idx", 1, func(c *cx) []Val {
 		p := c.S(0)
 		collection.DropSliceByIndices(&p, c.Ints(1)...)
-		return r1(VL(p))
+		return r1(VL(c.out(p)))
 	}, func(a, res, aft []Val) []hit {
 		return expectL(res[0], keepWhere(a[0].slice(), func(i int, v int64) bool { return !hasIdx(a[1].L, i) }), "wrong-elements")
 	}).ip()
 	reg("DropSliceByCondition", "s,p", 1, func(c *cx) []Val {
 		p := c.S(0)
 		collection.DropSliceByCondition(&p, predk(c.Z(1), c.Z(2)))
-		return r1(VL(p))
+		return r1(VL(c.out(p)))
 	}, func(a, res, aft []Val) []hit {
 		cond := predk(a[1].Z, a[2].Z)
 		return expectL(res[0], keepWhere(a[0].slice(), func(i int, v int64) bool { return !cond(v) }), "wrong-elements")
@@ -95,7 +96,7 @@ func registerSlices() {
 	reg("DropSliceOverlappingElements", "s,t,k", 1, func(c *cx) []Val {
 		p := c.S(0)
 		collection.DropSliceOverlappingElements(&p, c.S(1), cmpk(c.Z(2)))
-		return r1(VL(p))
+		return r1(VL(c.out(p)))
 	}, func(a, res, aft []Val) []hit {
 		eq, t := cmpk(a[2].Z), a[1].slice()
 		return expectL(res[0], keepWhere(a[0].slice(), func(i int, v int64) bool { return !member(t, v, eq) }), "wrong-elements")
@@ -103,24 +104,24 @@ func registerSlices() {
 
 	// ------------------------------------------------------------ filter.go
 	reg("FilterOutByIndices", "s,idx", 1, func(c *cx) []Val {
-		return r1(VL(collection.FilterOutByIndices(c.S(0), c.Ints(1)...)))
+		return r1(VL(c.out(collection.FilterOutByIndices(c.S(0), c.Ints(1)...))))
 	}, func(a, res, aft []Val) []hit {
 		return expectL(res[0], keepWhere(a[0].slice(), func(i int, v int64) bool { return !hasIdx(a[1].L, i) }), "wrong-elements")
-	})
+	}).returnsArg() // nothing to filter out: "return slice"
 	reg("FilterOutByCondition", "s,p", 1, func(c *cx) []Val {
-		return r1(VL(collection.FilterOutByCondition(c.S(0), predk(c.Z(1), c.Z(2)))))
+		return r1(VL(c.out(collection.FilterOutByCondition(c.S(0), predk(c.Z(1), c.Z(2))))))
 	}, func(a, res, aft []Val) []hit {
 		cond := predk(a[1].Z, a[2].Z)
 		return expectL(res[0], keepWhere(a[0].slice(), func(i int, v int64) bool { return !cond(v) }), "wrong-elements")
 	})
 
 	// ------------------------------------------------------------ merge.go, clone.go
-	reg("MergeSlice", "s", 1, func(c *cx) []Val { return r1(VL(collection.MergeSlice(c.S(0)...))) },
+	reg("MergeSlice", "s", 1, func(c *cx) []Val { return r1(VL(c.out(collection.MergeSlice(c.S(0)...)))) },
 		func(a, res, aft []Val) []hit { return expectL(res[0], a[0].L, "wrong-elements") })
-	reg("MergeSlices", "ss", 1, func(c *cx) []Val { return r1(VL(collection.MergeSlices(c.SS(0)...))) },
+	reg("MergeSlices", "ss", 1, func(c *cx) []Val { return r1(VL(c.out(collection.MergeSlices(c.SS(0)...)))) },
 		func(a, res, aft []Val) []hit { return expectL(res[0], concat(a[0].LL), "wrong-elements") })
 	reg("CloneSlice", "s", 1, func(c *cx) []Val {
-		r := collection.CloneSlice(c.S(0))
+		r := c.out(collection.CloneSlice(c.S(0)))
 		v := VL(r)
 		for i := range r { // a clone must not share storage with its source
 			r[i] += 1000
@@ -128,7 +129,7 @@ func registerSlices() {
 		return r1(v)
 	}, func(a, res, aft []Val) []hit { return expectL(res[0], a[0].L, "wrong-elements") })
 	reg("CloneSliceN", "s,n", 1, func(c *cx) []Val {
-		r := collection.CloneSliceN(c.S(0), c.I(1))
+		r := c.outLL(collection.CloneSliceN(c.S(0), c.I(1)))
 		v := VLL(r)
 		for _, x := range r {
 			for i := range x {
@@ -146,7 +147,7 @@ func registerSlices() {
 		return expectLL(res[0], want, "wrong-elements")
 	})
 	reg("CloneSlices", "ss", 1, func(c *cx) []Val {
-		r := collection.CloneSlices(c.SS(0)...)
+		r := c.outLL(collection.CloneSlices(c.SS(0)...))
 		v := VLL(r)
 		for _, x := range r {
 			for i := range x {
@@ -158,7 +159,7 @@ func registerSlices() {
 
 	// ------------------------------------------------------------ convert.go
 	reg("ConvertSliceToBatches", "s,n", 1, func(c *cx) []Val {
-		return r1(VLL(collection.ConvertSliceToBatches(c.S(0), c.I(1))))
+		return r1(VLL(c.outLL(collection.ConvertSliceToBatches(c.S(0), c.I(1)))))
 	}, func(a, res, aft []Val) []hit {
 		s, n, got := a[0].slice(), a[1].Z, res[0].LL
 		if len(s) == 0 || n <= 0 {
@@ -176,9 +177,10 @@ func registerSlices() {
 			}
 		}
 		return nil
-	})
+	}).subSlices() // "batches = append(batches, s[i:end])"
 	reg("ConvertSliceToAny", "s", 1, func(c *cx) []Val {
 		r := collection.ConvertSliceToAny(c.S(0))
+		regOut(c, "the result", r)
 		l := make([]int64, len(r))
 		for i, x := range r {
 			v, ok := x.(int64)
@@ -244,7 +246,7 @@ func registerSlices() {
 	reg("ReverseSlice", "s", 1, func(c *cx) []Val {
 		p := c.S(0)
 		collection.ReverseSlice(&p)
-		return r1(VL(p))
+		return r1(VL(c.out(p)))
 	}, func(a, res, aft []Val) []hit {
 		if h := expectL(res[0], reversed(a[0].L), "not-reversed"); h != nil {
 			return h
@@ -386,7 +388,7 @@ func registerSlices() {
 		return nil
 	})
 	reg("FindCombinationsInSliceByRange", "s5,lo,hi", 1, func(c *cx) []Val {
-		return r1(VLL(collection.FindCombinationsInSliceByRange(c.S(0), c.I(1), c.I(2))))
+		return r1(VLL(c.outLL(collection.FindCombinationsInSliceByRange(c.S(0), c.I(1), c.I(2)))))
 	}, func(a, res, aft []Val) []hit {
 		s, lo, hi := a[0].L, a[1].Z, a[2].Z
 		// every non-empty set of positions (bit mask) whose size lies within [lo,hi] gives one combination
